@@ -40,6 +40,7 @@ class GSym(LSym):
         self.lemmas = []          # table lemmas checked on the spot
         self.digits = {}          # scalar tag -> dict(kind, w, vars)
         self.scalars = {}         # region name -> tag
+        self.byte_scalars = {}; self.byte_scalar_tags = {}   # tag -> the 32 byte polynomials of a scalar assembled by real code
         self.nsc = 0
         self.static_tables = {}   # global name -> ("radix16 basepoint table", base)
         CM = r'curve25519_dalek::backend::serial::curve_models::'
@@ -455,6 +456,18 @@ class GSym(LSym):
     def scalar_tag(self, p):
         e = self.regions[p.r].b.get(p.o)
         if e is not None and isinstance(e[0], ScalarObj) and e[1] == 0: return e[0].tag
+        # a scalar built by real code from symbolic bytes (clamp_integer, ...): its digits are tied to the integer value of those bytes
+        R = self.regions[p.r]; bs = []
+        for k in range(32):
+            c = R.b.get(p.o + k)
+            if c is None or not isinstance(c[0], Poly) or c[2] != 1: break
+            bs.append(self.ctx.resolve(c[0]))
+        if len(bs) == 32:
+            key = tuple(repr(b) for b in bs)
+            tag = self.byte_scalar_tags.get(key)
+            if tag is None:
+                tag = "bs%d" % len(self.byte_scalar_tags); self.byte_scalar_tags[key] = tag; self.byte_scalars[tag] = bs
+            return tag
         raise Unsupported("recoding of something that is not a harness scalar at %r" % (p,))
 
     # ------------------------------------------------------------------ recodings (contracts: Kani harnesses on the real code)
